@@ -605,6 +605,172 @@ fn cases(ctx: &Ctx, rng: &mut Rng) -> Vec<Case> {
     v
 }
 
+// ---------------------------------------------------------------------------
+// Sharded node: the only connection of ONE shard dies, the other shards keep theirs
+// ---------------------------------------------------------------------------
+//
+// "The session keeps working through the remaining and re-established connections": requests
+// whose token belongs to the shard that has just lost its connection are issued while the pool
+// cannot yet have replaced it (new connections are slow to complete the handshake); they must
+// neither panic nor hang, and the shard's requests must succeed again within the pacing window.
+
+struct SurvOut {
+    error: Option<String>,
+    shards: u16,
+    victim: u16,
+    how: &'static str,
+    /// in-flight requests on the victim connection: outcome, None = never returned, Err(panic text)
+    inflight: Vec<(u64, Result<Option<EchoOutcome>, String>)>,
+    /// probes for the victim shard issued during the refill window
+    probes: Vec<(u64, Result<Option<EchoOutcome>, String>)>,
+    first_success_after_ms: Option<u64>,
+    violations: Vec<String>,
+}
+
+async fn run_sharded_survivor(seed: u64) -> SurvOut {
+    use crate::refmodel::{murmur3, sharding};
+    let mut rng = Rng::new(seed, 31);
+    let shards = rng.usize(2, 4) as u16;
+    let victim = rng.below(shards as u64) as u16;
+    let how = *rng.pick(&["fin", "rst", "garbage"]);
+    let k = rng.usize(0, 3);
+    let mut out = SurvOut { error: None, shards, victim, how, inflight: vec![], probes: vec![], first_success_after_ms: None, violations: vec![] };
+    let echo = Echo::new(EchoMode::Immediate);
+    let mut spec = single_node_spec();
+    spec.nodes[0].sharding = Some(ShardSpec { nr_shards: shards, msb_ignore: 12, shard_aware_port: true });
+    let cluster = MockCluster::start(spec, echo.clone()).await;
+    let profile = ExecutionProfile::builder().request_timeout(None).build();
+    let session = match connect(&cluster, |b| b.pool_size(PoolSize::PerShard(NonZeroUsize::new(1).unwrap())).default_execution_profile_handle(profile.into_handle())).await {
+        Ok(s) => Arc::new(s),
+        Err(e) => {
+            out.error = Some(e);
+            cluster.shutdown();
+            return out;
+        }
+    };
+    let pool_conns = |c: &MockCluster| c.established(0).into_iter().filter(|x| !x.registered.load(std::sync::atomic::Ordering::SeqCst)).collect::<Vec<_>>();
+    {
+        let c = cluster.clone();
+        let full = cluster.wait_until(Duration::from_secs(15), move || (0..shards).all(|sh| pool_conns(&c).iter().any(|x| x.shard == Some(sh)))).await;
+        if !full {
+            out.error = Some("pool did not fill".into());
+            cluster.shutdown();
+            return out;
+        }
+    }
+    settle(cluster.log(), Duration::from_millis(100), Duration::from_secs(5), || false).await;
+    let prepared = match session.prepare(format!("{ECHO_QUERY_PREFIX}?")).await {
+        Ok(mut p) => {
+            p.set_is_idempotent(false);
+            Arc::new(p)
+        }
+        Err(e) => {
+            out.error = Some(format!("prepare: {e}"));
+            cluster.shutdown();
+            return out;
+        }
+    };
+    // request ids whose token the node assigns to the victim shard
+    let id_for_victim = || loop {
+        let id = next_op();
+        let tok = murmur3::murmur3_token(&(id as i64).to_be_bytes());
+        if sharding::shard_of(tok, shards, 12) as u16 == victim {
+            return id;
+        }
+    };
+    let spawn_op = |id: u64| {
+        let (s, p) = (session.clone(), prepared.clone());
+        tokio::spawn(async move { tokio::time::timeout(Duration::from_secs(20), echo_op(s, Some(p), id, false)).await.ok() })
+    };
+    let collect = |r: Result<Option<EchoOutcome>, tokio::task::JoinError>| -> Result<Option<EchoOutcome>, String> { r.map_err(|e| format!("{e}")) };
+    // k requests in flight on the victim shard's connection
+    echo.set_mode(EchoMode::Hold);
+    let mut inflight = Vec::new();
+    for _ in 0..k {
+        let id = id_for_victim();
+        inflight.push((id, spawn_op(id)));
+    }
+    {
+        let e2 = echo.clone();
+        settle(cluster.log(), Duration::from_millis(60), Duration::from_secs(10), move || e2.held_count() >= k).await;
+    }
+    echo.set_mode(EchoMode::Immediate);
+    // from now on new connections are slow to come up: the victim shard stays without a connection for a while
+    cluster.node(0).handshake_delay_ms.store(400, std::sync::atomic::Ordering::SeqCst);
+    let Some(vconn) = pool_conns(&cluster).into_iter().find(|x| x.shard == Some(victim)) else {
+        out.error = Some("no connection on the victim shard".into());
+        cluster.shutdown();
+        return out;
+    };
+    match how {
+        "fin" => vconn.close(CloseHow::Fin),
+        "rst" => vconn.close(CloseHow::Rst),
+        _ => {
+            vconn.send_raw(vec![0xde, 0xad, 0xbe, 0xef, 0x00, 0x01, 0x02, 0x03, 0x04, 0x05, 0x06, 0x07]);
+            tokio::time::sleep(Duration::from_millis(5)).await;
+            vconn.close(CloseHow::Fin);
+        }
+    }
+    let t0 = std::time::Instant::now();
+    // probes for the victim shard during the refill window and after it
+    for i in 0..40 {
+        let id = id_for_victim();
+        let r = collect(spawn_op(id).await);
+        if matches!(&r, Ok(Some(EchoOutcome::Ok(_)))) && out.first_success_after_ms.is_none() {
+            out.first_success_after_ms = Some(t0.elapsed().as_millis() as u64);
+        }
+        let bad = !matches!(&r, Ok(Some(_)));
+        out.probes.push((id, r));
+        if bad {
+            break;
+        }
+        if out.first_success_after_ms.is_some() && i >= 12 {
+            break;
+        }
+        tokio::time::sleep(Duration::from_millis(if t0.elapsed() < Duration::from_millis(450) { 15 } else { 120 })).await;
+    }
+    for (id, h) in inflight {
+        out.inflight.push((id, collect(h.await)));
+    }
+    out.violations = cluster.log().violations();
+    drop(session);
+    cluster.shutdown();
+    out
+}
+
+fn judge_survivor(o: &mut Outcome, seed: u64, r: &SurvOut) {
+    if let Some(e) = &r.error {
+        o.inconclusive(format!("sharded-survivor case could not run: {e}"));
+        return;
+    }
+    let replay = json!({"sharded_survivor_seed": seed, "shards": r.shards, "victim_shard": r.victim, "how": r.how, "in_flight": r.inflight.len(),
+        "probes": r.probes.iter().map(|(id, x)| format!("{id}: {x:?}").chars().take(160).collect::<String>()).collect::<Vec<_>>()});
+    o.case(fw::hash64(format!("surv:{seed}").as_bytes()), true);
+    o.class(&format!("sharded:one-shard-lost-its-connection:{}", r.how));
+    for v in &r.violations {
+        o.violation("c10:protocol-violation-seen-by-node", v.clone(), replay.clone());
+    }
+    for (id, x) in r.inflight.iter().chain(r.probes.iter()) {
+        match x {
+            Err(p) => o.violation("c10:sharded:request-panicked", format!("request {id} for shard {} (whose only connection had just died; {} other shard(s) still connected) ended in a panic of the calling task: {p}", r.victim, r.shards - 1), replay.clone()),
+            Ok(None) => o.violation("c10:sharded:request-hangs", format!("request {id} for shard {} did not return within 20 s after that shard's connection died", r.victim), replay.clone()),
+            Ok(Some(EchoOutcome::Ok(got))) if got != id => o.violation("c10:sharded:foreign-response", format!("request {id} was handed the response of request {got}"), replay.clone()),
+            Ok(Some(EchoOutcome::Garbled(g))) => o.violation("c10:sharded:garbled-response", format!("request {id} was handed a garbled response: {g}"), replay.clone()),
+            _ => {}
+        }
+    }
+    if r.probes.iter().all(|(_, x)| matches!(x, Ok(Some(_)))) {
+        match r.first_success_after_ms {
+            None => o.violation("c10:sharded:session-did-not-recover", format!("after shard {}'s connection died ({}), none of {} requests for that shard succeeded although the node is healthy and {} other shard(s) stayed connected", r.victim, r.how, r.probes.len(), r.shards - 1), replay.clone()),
+            Some(ms) if ms < 400 => o.class("sharded:served-through-remaining-connections-before-refill"),
+            Some(_) => o.class("sharded:served-after-refill"),
+        }
+    }
+    if o.want_sample() {
+        o.sample(replay);
+    }
+}
+
 pub fn run(ctx: &Ctx) -> Outcome {
     let mut out = Outcome::new();
     let rt = runtime(ctx.workers.min(8));
@@ -671,6 +837,34 @@ pub fn run(ctx: &Ctx) -> Outcome {
             // a violating tree: stop enumerating, the witnesses are enough (keeps a failing run short)
             out.note("stopped_early_after_violations", json!(true));
             break;
+        }
+    }
+    if out.violations.is_empty() {
+        let n = ctx.vol(24, 400);
+        let seeds: Vec<u64> = (0..n).map(|i| ctx.seed.wrapping_mul(104729).wrapping_add(i)).collect();
+        for chunk in seeds.chunks(6) {
+            let res: Vec<(u64, SurvOut)> = rt.block_on(async {
+                let mut js = Vec::new();
+                for s in chunk.iter().copied() {
+                    js.push(tokio::spawn(async move { (s, run_sharded_survivor(s).await) }));
+                }
+                let mut v = Vec::new();
+                for j in js {
+                    if let Ok(x) = j.await {
+                        v.push(x);
+                    }
+                }
+                v
+            });
+            for (s, r) in &res {
+                judge_survivor(&mut out, *s, r);
+            }
+            if fw::stop_early(&mut out) {
+                break;
+            }
+        }
+        for c in ["sharded:one-shard-lost-its-connection:fin", "sharded:one-shard-lost-its-connection:rst", "sharded:one-shard-lost-its-connection:garbage", "sharded:served-through-remaining-connections-before-refill"] {
+            out.require_class(c);
         }
     }
     for c in [
